@@ -3,7 +3,7 @@
 cd "$(dirname "$0")/.." || exit 2
 tier="${1:-quick}"; rc=0
 for id in $(python3 -c "import json;print(' '.join(c['property_id'] for c in json.load(open('MANIFEST.json'))['checks']))"); do
-  out=$(./check "$id" --tier "$tier" 2>/dev/null); code=$?
+  mkdir -p "${LOGDIR:-/tmp/run_all_logs}"; out=$(./check "$id" --tier "$tier" 2>"${LOGDIR:-/tmp/run_all_logs}/$id.$tier.err" | tee "${LOGDIR:-/tmp/run_all_logs}/$id.$tier.out"); code=$?
   echo "$out" | grep -E "^(VIOLATION|KNOWN-FINDING|HARNESS-ERROR)" | cut -c1-200
   echo "$out" | grep -E "^$id (held|VIOLATED)" || echo "$id exit=$code (no verdict line)"
   [ $code -ne 0 ] && rc=1
